@@ -166,6 +166,7 @@ class Gen:
                     inst = self.new_ent(m, "inst")
                     inst.cls = e
                     inst.arg = self.i(1, 5)
+                    inst.kw = self.b(1, 3)
         # instances of classes defined in earlier modules
         if self.flag("classes") and self.b(1, 3):
             cands = [e for e in self.visible_ents(m) if e.kind == "class"]
@@ -173,6 +174,7 @@ class Gen:
                 inst = self.new_ent(m, "inst")
                 inst.cls = self.c(cands)
                 inst.arg = self.i(1, 5)
+                inst.kw = self.b(1, 3)
         # decoys
         m.decoys = [self.c(POOL) for _ in range(self.i(0, 2))] if self.flag("decoys") else []
 
@@ -669,7 +671,11 @@ class Gen:
             elif e.kind == "inst":
                 w.n(e.name, e.bid, "def").w(" = ")
                 self.render_access(w, m, e.cls)
-                w.w("(%d)\n" % e.arg)
+                if getattr(e, "kw", False):
+                    # constructor called by keyword: the keyword is an occurrence of __init__'s parameter
+                    w.w("(").n(e.cls.init_param[0], e.cls.init_param[1], "kw").w("=%d)\n" % e.arg)
+                else:
+                    w.w("(%d)\n" % e.arg)
         if getattr(m, "decoys", None):
             for d in m.decoys:
                 w.w("# %s is mentioned here\n" % d)
@@ -725,6 +731,9 @@ class Gen:
             w.w("        ").n("self", c.init_self, "use").w(".").n(n, ab, "def").w(" = ").n(pname, pb, "use").w(" + %d\n" % k)
         for meth in c.methods:
             self.render_function(w, m, meth, "    ")
+        if self.flag("dunder_call"):
+            # instances are callable too: keyword arguments of the CONSTRUCTOR must still be resolved against __init__
+            w.w("    def __call__(self, w_arg=0):\n        return w_arg\n")
 
     def render_stmt(self, w, m, f, s, indent):
         k = s[0]
@@ -875,7 +884,7 @@ def _inherited(cls, field):
     return out
 
 
-PFLAGS = ["header_collision", "package", "classes", "inheritance", "relative", "comprehensions", "two_comps_one_line", "nested", "global_stmt", "decoys"]
+PFLAGS = ["header_collision", "package", "classes", "inheritance", "relative", "comprehensions", "two_comps_one_line", "nested", "global_stmt", "decoys", "dunder_call"]
 
 
 @st.composite
